@@ -155,6 +155,40 @@ Theorem C17_ops_nonempty :
 Proof. exact ops_nonempty. Qed.
 Print Assumptions C17_ops_nonempty.
 
+(* Regenerated from /repo on every run (second table of Gen/AnonOps.v,
+   tools/gentables/gen_sharedwrites.go): every write into memory the writing
+   function did not allocate itself, in all code of the packages hcl, hclsyntax,
+   json, ext/dynblock, hcldec that a USER of a parsed configuration can reach
+   (exported API without the tree-building entry points).  The table equals the
+   audited list of Conc/AnonSymProofs.v (each entry with the reason why it is
+   not shared state of a parsed tree).  A lazily filled cache on a tree node -
+   new shared mutable state the isolation theorems do not know about - adds an
+   entry, and this theorem stops compiling whatever the scheduler does. *)
+Theorem C17_shared_writes_audited :
+  shared_writes = SharedWrites.expected_shared_writes.
+Proof. exact SharedWrites.shared_writes_expected. Qed.
+Print Assumptions C17_shared_writes_audited.
+
+(* In particular: the only fields of tree types (packages hclsyntax and json)
+   written by reachable code are AnonSymbolExpr.values (guarded, C17_ops_guarded)
+   and the scope stack of the walker object Variables() allocates per call
+   (SharedWrites.tree_field: the entry names a field of a type of hclsyntax or
+   json; SharedWrites.allowed_tree_write: it is one of those two). *)
+Theorem C17_tree_fields_written :
+  forallb (fun e => implb (SharedWrites.tree_field (snd e))
+                          (SharedWrites.allowed_tree_write (snd e))) shared_writes = true.
+Proof. exact SharedWrites.tree_fields_written. Qed.
+Print Assumptions C17_tree_fields_written.
+
+(* the analysis ran (a failure of the analysis is reported as a table entry of
+   kind "error") and found the known shared state, the elements of
+   AnonSymbolExpr.values (not vacuous) *)
+Theorem C17_shared_writes_sane :
+  existsb (fun e => SharedWrites.is_anon_values_element (snd e)) shared_writes = true
+  /\ existsb (fun e => SharedWrites.is_analysis_error (snd (fst e))) shared_writes = false.
+Proof. exact SharedWrites.shared_writes_sane. Qed.
+Print Assumptions C17_shared_writes_sane.
+
 (* REFUTED when contexts are shared: the ownership hypothesis of the theorems
    above is necessary.  Two goroutines running the same well-formed splat
    program on the SAME context (ctx 1) under some schedule: goroutine 1 does
